@@ -167,16 +167,21 @@ class OneShot:
 
 class _Body:
     def __init__(self, eng: OneShot, f: Func, watched: set, found: list, exits: list) -> None:
-        self.eng, self.f, self.watched, self.found, self.exits = eng, f, watched, found, exits
+        self.eng, self.f, self.watched, self.found, self.exits = eng, f, set(watched), found, exits
         self.touched: dict[str, int] = {}
+        self.local_one_shot: dict[str, int] = {}
 
     # state: name -> (count, line of first traversal)
     def consume(self, name: str, state: dict, line: int, how: str, times: int = 1) -> None:
         if name not in state or times <= 0:
             return
         n, first = state[name]
+        if n == 0 and times >= 2 and name in self.watched:
+            # traversed once PER ELEMENT of an enclosing loop / generator: every traversal after the first sees nothing
+            self.found.append(Finding(self.f.qname, name, line, line, how + ", once per element of the enclosing iteration" + (
+                " (a one-shot object built at line %d)" % self.local_one_shot[name] if name in self.local_one_shot else "")))
         if n >= 1 and name in self.watched:
-            self.found.append(Finding(self.f.qname, name, first, line, how))
+            self.found.append(Finding(self.f.qname, name, first, line, how + (" (a one-shot object built at line %d)" % self.local_one_shot[name] if name in self.local_one_shot else "")))
         if n == 0:
             first = line
         state[name] = (min(2, n + times), first)
@@ -312,11 +317,26 @@ class _Body:
             self.expr(st.value, state)
             return state
         if isinstance(st, ast.Assign):
-            self.expr(st.value, state)
+            one_shot = _is_one_shot_value(st.value)
+            if one_shot and isinstance(st.value, ast.GeneratorExp):
+                # building the generator traverses nothing yet; what it ranges over is traversed when the generator is
+                for g in st.value.generators[1:]:
+                    self.expr(g.iter, state)
+            elif one_shot and isinstance(st.value, ast.Call):
+                for a in list(st.value.args) + [k.value for k in st.value.keywords]:
+                    if not (isinstance(a, ast.Name) and a.id in state):
+                        self.expr(a, state)
+            else:
+                self.expr(st.value, state)
             alias = isinstance(st.value, ast.Name) and st.value.id in state
             for t in st.targets:
                 if alias and isinstance(t, ast.Name):
                     state[t.id] = state[st.value.id]  # a second name for the same object (counts are copied; good enough for straight-line code)
+                elif one_shot and isinstance(t, ast.Name):
+                    # a generator / map / filter / zip / iterator object held in a local: it can be walked once
+                    state[t.id] = (0, 0)
+                    self.watched.add(t.id)
+                    self.local_one_shot[t.id] = st.lineno
                 else:
                     self._rebind(t, state)
             return state
@@ -391,6 +411,24 @@ class _Body:
             if isinstance(ch, ast.expr):
                 self.expr(ch, state)
         return state
+
+
+ONE_SHOT_CALLS = {"map", "filter", "zip", "iter", "chain", "islice", "enumerate", "reversed", "takewhile", "dropwhile", "starmap", "from_iterable", "groupby",
+                  "accumulate", "zip_longest", "pairwise", "combinations", "permutations", "product"}
+
+
+def _is_one_shot_value(e: ast.expr) -> bool:
+    """Does the expression build an object that can be iterated only once (a generator expression, or a lazy iterator of the standard library)?"""
+    if isinstance(e, ast.GeneratorExp):
+        return True
+    if isinstance(e, ast.Call):
+        fn = e.func
+        name = fn.id if isinstance(fn, ast.Name) else (fn.attr if isinstance(fn, ast.Attribute) else None)
+        if name in ONE_SHOT_CALLS and (isinstance(fn, ast.Name) or (isinstance(fn, ast.Attribute) and (
+                (isinstance(fn.value, ast.Name) and fn.value.id in ("itt", "itertools", "it")) or
+                (isinstance(fn.value, ast.Attribute) and fn.value.attr == "chain")))):
+            return True
+    return False
 
 
 def _bind(cal: Func, c: ast.Call) -> dict[str, ast.expr]:
